@@ -43,14 +43,7 @@ ASSUME = [
 
 # Real defects of /repo that are reproduced by this check and awaiting a decision by the coordinator.
 # Narrow structural matches only; see the final report.  (Empty: none found.)
-PENDING_FINDINGS = [
-    # Literal-reading deviation on NaN counts (floating reps): std::chrono defines `a <= b` as `!(b < a)` and `a >= b` as
-    # `!(a < b)`, so `duration<float>{NaN} <= 1ms` is TRUE inside chrono, while Au compares the stored values with the
-    # built-in `<=` / `>=` (quantity.hh:253,255) and answers FALSE (the IEEE answer).  Only these two operators with a
-    # NaN operand are filtered; ==, !=, <, >, +, - agree with chrono on NaN, and inf / -0.0 agree for every operator.
-    {"kind": "op", "special": True, "nan_operand": True, "op": "le"},
-    {"kind": "op", "special": True, "nan_operand": True, "op": "ge"},
-]
+PENDING_FINDINGS = []      # findings live in /verif/known_findings.json (F22 fixed; F23, F24, F25 listed)
 
 REPS = ["i32", "i64", "f32", "f64"]
 CTYPE = {"i32": "int32_t", "i64": "int64_t", "f32": "float", "f64": "double"}
@@ -1097,10 +1090,13 @@ def explore(tier, seed, rng, wd):
         add_pair("i64", p, r, other, 1, "n", True)        # std::chrono::X{..} op au::unit(..)
         add_pair(r, other, "i64", p, 0, "n", True)        # au::unit(..) op std::chrono::X{..}
     k = rng.randrange(16)
-    for p1 in periods:
-        for p2 in periods:
-            chosen = [rep_pairs[(k + j * 5) % 16] for j in range(per_pp)]     # 5 is coprime to 16: all pairs in turn
-            k += per_pp * 5 + 1
+    for i1, p1 in enumerate(periods):
+        for i2, p2 in enumerate(periods):
+            # quick tier: every ordered period pair, alternately with two and one rep pair (random volume trimmed in
+            # favour of the directed cases above)
+            npp = per_pp if (tier != "quick" or (i1 + i2) % 2 == 0) else 1
+            chosen = [rep_pairs[(k + j * 5) % 16] for j in range(npp)]     # 5 is coprime to 16: all pairs in turn
+            k += npp * 5 + 1
             for (r1, r2) in chosen:
                 add_pair(r1, p1, r2, p2)
     stats["pairs_total"] = len(pairs)
@@ -1131,7 +1127,7 @@ def explore(tier, seed, rng, wd):
     stats["pairs_rejected_by_au"] = len(rejected)
 
     # ---- values ---------------------------------------------------------------------------------
-    nvals = 18 if tier == "quick" else 36
+    nvals = 14 if tier == "quick" else 36
     for pr in compiling:
         a, b = pr["a"], pr["b"]
         pr["vals"] = gen_value_pairs(rng, a["rep"], (a["n"], a["d"]), b["rep"], (b["n"], b["d"]), nvals)
@@ -1215,7 +1211,7 @@ def explore(tier, seed, rng, wd):
         else:
             directed = [p for p in compiling if p.get("directed")]
             rest_pairs = [p for p in compiling if not p.get("directed")]
-            use = directed + (rest_pairs[2::6] if (tier == "quick" and ci == 2) else rest_pairs[1::3])
+            use = directed + (rest_pairs[2::12] if (tier == "quick" and ci == 2) else rest_pairs[1::3])
         fl = files if use is compiling else write_value_harness(os.path.join(wd), types, use, 16)
         # -O0 (the sanitizer-instrumented build is 3x faster than -O1); thorough adds one -O1 build of a third of the pairs
         opt = "-O1" if tag == "g14o1" else "-O0"
@@ -1458,7 +1454,8 @@ def operand_text(t, as_quantity, spell):
         return dur + "{x}"
     n, d = norm((t["n"], t["d"]))
     if spell == "n" and (n, d) in NAMED:
-        return f"au::make_quantity<au::{NAMED[(n, d)]}>({CTYPE[t['rep']]}{{x}})"
+        unit = "au::" + NAMED[(n, d)].replace("<Seconds>", "<au::Seconds>")
+        return f"au::make_quantity<{unit}>({CTYPE[t['rep']]}{{x}})"
     if spell in ("q", "n"):
         return f"au::make_quantity<decltype(au::Seconds{{}} * (au::mag<{n}>() / au::mag<{d}>()))>({CTYPE[t['rep']]}{{x}})"
     return f"au::as_quantity({dur}{{x}})"
